@@ -590,7 +590,13 @@ const char* ParseOffset(const char* dp, const char* mode, int* offset) {
           dp = bp;
           if (sep != '\0' && *bp == sep) ++bp;
           const char* cp = ParseInt(bp, 2, 0, 59, &seconds);
-          if (cp != nullptr && cp - bp == 2) dp = cp;
+          if (cp != nullptr && cp - bp == 2) {
+            dp = cp;
+          } else {
+            seconds = 0;  // a lone digit is not part of the offset
+          }
+        } else {
+          minutes = 0;  // a lone digit is not part of the offset
         }
         *offset = ((hours * 60 + minutes) * 60) + seconds;
         if (first == '-') *offset = -*offset;
